@@ -47,6 +47,7 @@ type observer struct {
 	ordinal  int
 	mode     byte
 	script   string
+	inClose  int // onclose calls the observation's own cancel function this many times
 	calls    int
 	log      []string
 	cancel   func()
@@ -70,9 +71,12 @@ func (o *observer) onupdate(v rel.Value) error {
 		return errors.New("observer refuses the value")
 	case 'p':
 		panic("observer panics")
-	case 'r':
+	case 'r', 'R':
 		if cancel != nil {
 			cancel() // from inside the callback, i.e. on the engine's goroutine
+			if act == 'R' {
+				cancel()
+			}
 		}
 	}
 	return nil
@@ -88,7 +92,13 @@ func (o *observer) onclose(err error) {
 	default:
 		o.log = append(o.log, "c")
 	}
+	cancel := o.cancel
 	o.mu.Unlock()
+	if cancel != nil {
+		for i := 0; i < o.inClose; i++ {
+			cancel() // from inside onclose, on the engine's goroutine
+		}
+	}
 	o.once.Do(func() { close(o.closed) })
 }
 
@@ -238,10 +248,15 @@ func parse(fields []string) ([]*op, []*observer, int, string) {
 		case 'O':
 			q := strings.SplitN(p[2], " ", 3)
 			o.script, o.mode, o.src = q[0], q[1][0], q[2]
+			inClose := 0
+			if k := strings.IndexByte(o.script, '/'); k >= 0 {
+				inClose, _ = strconv.Atoi(o.script[k+1:])
+				o.script = o.script[:k]
+			}
 			if o.script == "-" {
 				o.script = ""
 			}
-			o.obs = &observer{ordinal: len(obs) + 1, mode: o.mode, script: o.script, closed: make(chan struct{})}
+			o.obs = &observer{ordinal: len(obs) + 1, mode: o.mode, script: o.script, inClose: inClose, closed: make(chan struct{})}
 			obs = append(obs, o.obs)
 		case 'C':
 			o.target, _ = strconv.Atoi(p[2])
